@@ -10,13 +10,15 @@ DIR = None
 
 POOL = [("a.txt", b"A-content"), ("e.dat", b""), ("emp", DIR), ("sp ace.txt", b"space"), ("ü.bin", b"\xff\x00uml"),
         ("x&<>\"'.txt", b"xmlspecial"), ("d", DIR), ("d/f.txt", b"F-content"), ("d/s", DIR), ("d/s/g.txt", b"G-content"),
-        ("d/s/t", DIR), ("d/s/t/h.txt", b"H-content")]
+        ("d/s/t", DIR), ("d/s/t/h.txt", b"H-content"), ("dd", DIR), ("dd/q.txt", b"Q-content"), ("d.bak", b"prefix-named file")]
+POOL_T = [("a.txt", b"A-content"), ("x.tmp", b"tmp1"), ("d", DIR), ("d/f.txt", b"F-content"), ("d/y.tmp", b"tmp2"), ("sub", DIR),
+          ("sub/s.txt", b"S"), ("d/sub", DIR), ("d/sub/t.tmp", b"tmp3"), ("keep.tmp.txt", b"not a tmp")]
 POOL_X = POOL + [("ls\u2028ep.txt", b"linesep"), ("d/é è", DIR), ("d/é è/\U0001F3AC.mov", b"astral")]
 FSETS = [["xxh64"], ["c4", "md5"], list(ref.FORMATS_CLI)]
 
 
 def pool_of(meta):
-    return POOL_X if meta.get("pool") == "x" else POOL
+    return POOL_X if meta.get("pool") == "x" else (POOL_T if meta.get("pool") == "t" else POOL)
 
 
 def closed_subsets(pool, k):
@@ -43,6 +45,11 @@ def enabled(tree, meta):
         for fs in FSETS:
             out.append((ops.create("", fs), m2, cont))
         out.append((ops.create("", ["xxh64"], n=True), m2, cont))
+        if meta.get("pool") == "t":
+            for ps in (["*.tmp"], ["sub/"], ["x.tmp", "sub"]):
+                out.append((ops.create("", ["md5"], i=ps), m2, cont))
+            if "d" in med:
+                out.append((ops.create("", ["md5"], i=["*.tmp"], sf=["d"]), m2, cont))
         if meta.get("rich"):
             out.append((ops.create("", ["c4", "md5"], n=True), m2, cont))
         for d in sorted(p for p, v in med.items() if v is DIR):
@@ -108,13 +115,14 @@ def judge(pre, op, post, res, obs, meta):
           exc=(res.exc or "").split(":")[0], where=res.tb[-1][1] if res.tb else None)
         return v
     below = {p: c for p, c in med.items() if (R == "" or p.startswith(R + "/"))}
-    pats = ref.DEFAULT_PATTERNS
+    from props import c12
+    pats = c12.effective(pre, o)[0]   # latest generation of the history at R + command line (+ the defaults)
     if sf:
         exp = set()
         for s in sf:
             if med.get(s, 0) is DIR:
                 for p, c in med.items():
-                    if p.startswith(s + "/") and c is not DIR and not ref.ignored(pats, p[len(s) + 1:], False):
+                    if p.startswith(s + "/") and c is not DIR and not ref.ignored(pats, p[len(R) + 1:] if R else p, False):
                         exp.add((p, "file"))
             else:
                 exp.add((s, "file"))
@@ -173,14 +181,15 @@ def main(tier, seed):
     eng = engine.Engine(PROP, tier, seed, "model_checking")
     engine.selftest(eng)
     if tier == "quick":
-        plans = [dict(k=3, max_gens=2, max_edits=1, pool="p")]
+        plans = [dict(k=3, max_gens=2, max_edits=1, pool="p", sf2=False), dict(k=2, max_gens=2, max_edits=1, pool="p"),
+                 dict(k=3, max_gens=2, max_edits=0, pool="t", sf2=False)]
     else:
         plans = [dict(k=3, max_gens=3, max_edits=1, pool="p", sf2=False), dict(k=5, max_gens=2, max_edits=1, pool="p"),
-                 dict(k=3, max_gens=2, max_edits=1, pool="x", rich=True)]
+                 dict(k=3, max_gens=2, max_edits=1, pool="x", rich=True), dict(k=4, max_gens=3, max_edits=1, pool="t", sf2=False)]
     tot = {"states": 0, "transitions": 0}
     runs = []
     for pl in plans:
-        pool = POOL_X if pl["pool"] == "x" else POOL
+        pool = pool_of(pl)
         trees = closed_subsets(pool, pl["k"])
         if pl["pool"] == "x":  # only the trees that use at least one extended name
             extra = {p for p, _ in POOL_X[len(POOL):]}
@@ -199,7 +208,7 @@ def main(tier, seed):
                    "judged: records of the manifests written by the run == non-ignored entries on disk, exactly once, "
                    "clean relative POSIX paths, reference digests in every requested format"}
     eng.assumptions += ["no symlinks / special files / names outside XML 1.0; contents are never altered between generations "
-                        "(that interaction belongs to C04)", "default ignore patterns only (C12 covers user patterns)"]
+                        "(that interaction belongs to C04)", "user patterns only in the plan with pool 't' (alphabet {*.tmp, sub/, x.tmp, sub}; matcher shared with C12)"]
     return eng.finish(cov, eval_case)
 
 
